@@ -215,6 +215,15 @@ def _tailify(stmts, target):
                     return None
                 out.append(ast.copy_location(ast.If(test=st.test, body=b, orelse=o), st))
                 return out
+        if isinstance(st, ast.Try) and last and not st.finalbody and not st.orelse and _has_return(st):
+            # a try statement in tail position: each of its blocks is in tail position too
+            b = _tailify(st.body, target)
+            hs = [_tailify(h.body, target) for h in st.handlers]
+            if b is None or any(x is None for x in hs):
+                return None
+            new_handlers = [ast.copy_location(ast.ExceptHandler(type=h.type, name=h.name, body=x), h) for h, x in zip(st.handlers, hs)]
+            out.append(ast.copy_location(ast.Try(body=b, handlers=new_handlers, orelse=[], finalbody=[]), st))
+            return out
         if _has_return(st):
             return None
         out.append(st)
@@ -315,7 +324,24 @@ class Inliner:
 
     def expand(self, call, caller, target, is_generator_ctx):
         """-> list of statements replacing a statement-level call (result assigned to `target` if given), or None."""
-        h = self.helper_for(call, caller)
+        h = None
+        if isinstance(call.func, ast.Call) and isinstance(call.func.func, ast.Name) and not call.func.keywords:
+            # a closure factory applied on the spot, F(a..)(x..): F is a module-level function whose body is one nested def and
+            # `return <that def>`; the call is the nested function's body with F's parameters replaced by a..
+            fac = self.ctx.repo.functions.get('%s:%s' % (caller.module.name, call.func.func.id))
+            if fac is not None and fac.cls is None and fac.parent is None and not isinstance(fac.node, ast.Lambda):
+                fbody = [x for x in fac.node.body if not (isinstance(x, ast.Expr) and isinstance(x.value, ast.Constant))]
+                fparams = [a.arg for a in fac.node.args.args]
+                if len(fbody) == 2 and isinstance(fbody[0], ast.FunctionDef) and isinstance(fbody[1], ast.Return) and \
+                        isinstance(fbody[1].value, ast.Name) and fbody[1].value.id == fbody[0].name and \
+                        len(fparams) == len(call.func.args) and not fac.node.args.vararg and not fac.node.args.kwarg and \
+                        not (set(fparams) & _bound_names(fbody[0])):
+                    env = dict(zip(fparams, call.func.args))
+                    g = _SubstNames(env).visit(clone(fbody[0]))
+                    ast.fix_missing_locations(g)
+                    h = FuncInfo(g, caller.module, fac.qualname + '.' + g.name, None, None)
+        if h is None:
+            h = self.helper_for(call, caller)
         if h is None:
             return None
         is_gen = h.is_generator
@@ -567,6 +593,20 @@ def unroll_table_dispatch(ctx, fi, stmts):
                 out.append(chain)
                 if not ends_break:
                     out.extend(st.orelse)
+                continue
+        if isinstance(st, ast.For) and isinstance(st.target, ast.Tuple) and len(st.target.elts) == 2 and \
+                all(isinstance(t, ast.Name) for t in st.target.elts) and not st.orelse:
+            # plain unrolling: `for a, b in TABLE: BODY` over a literal table is BODY once per entry, in table order - as long as BODY
+            # neither leaves the loop by break / continue nor rebinds a or b
+            table = _literal_pairs_table(ctx, fi, st.iter)
+            a, b = st.target.elts[0].id, st.target.elts[1].id
+            leaves = any(isinstance(n, (ast.Break, ast.Continue)) for x in st.body for n in ast.walk(x))
+            stores = {n.id for x in st.body for n in ast.walk(x) if isinstance(n, ast.Name) and isinstance(n.ctx, ast.Store)}
+            if table is not None and not leaves and not ({a, b} & stores) and len(table.elts) <= 16:
+                for e in table.elts:
+                    env = {a: e.elts[0], b: e.elts[1]}
+                    for x in st.body:
+                        out.append(ast.copy_location(_SubstNames(env).visit(clone(x)), st))
                 continue
         out.append(st)
     return out
